@@ -79,6 +79,16 @@ def mask_where(self, mask, replace=None, remask=True, recursive=True):
     if remask:
         obj = obj.remask_or(mask, recursive=recursive)
 
+        # An object that was entirely masked by the single value True stays
+        # so. (The assignment above has expanded that mask into an array; as the
+        # given mask is often derived from the values, the representation of the
+        # mask would otherwise depend on numbers that are hidden underneath it.)
+        if Qube.is_one_true(self._mask_):
+            obj._set_mask_(True)
+            for (key, deriv) in self._derivs_.items():
+                if Qube.is_one_true(deriv._mask_) and key in obj._derivs_:
+                    obj._derivs_[key]._set_mask_(True)
+
     return obj
 
 #===============================================================================
